@@ -1,5 +1,6 @@
 import PgFdr.Proofs.C09
 import PgFdr.Proofs.C09File
+import PgFdr.Proofs.C09Maps
 import PgFdr.Props.C08
 
 /-!
@@ -470,5 +471,313 @@ example : (fromParams .firstSpace exNsFiles [exNsParams]).toOption.map
       (fun res => (getProteins res "KC".toList).toOption) = some (some ["P1".toList, "P2".toList]) := by decide
 example : (fromParams .firstSpace exNsFiles [exNsParams]).toOption.map
       (fun res => (getProteins res "AAK".toList).toOption) = some (some ["P2".toList]) := by decide
+
+/-! ## the list of maps, one per digestion parameter set -/
+
+/-- the list `get_peptide_to_protein_maps` builds from FASTA files is the POINTWISE image of the list of
+    digestion parameter sets: it succeeds with `ms` iff `ms` has the length of `ps` and every element is the map
+    `mapOf` builds for the parameter set at the same position (all of its fields, nothing else) -/
+theorem maps_ok_iff (parse : ParseId) (files : List (List Str)) (groups : Option (List (List Str)))
+    (ps : List Params) (ms : List (PMap × SeqMap)) :
+    pepMaps parse files groups ps = .ok ms ↔
+      Pointwise (fun p m => mapOf parse files groups p = .ok m) ps ms :=
+  pepMaps_ok_iff parse files groups ps ms
+
+/-- index form: length preserved, the `i`-th map is the map of the `i`-th parameter set -/
+theorem maps_pointwise (parse : ParseId) (files : List (List Str)) (groups : Option (List (List Str)))
+    (ps : List Params) (ms : List (PMap × SeqMap)) (h : pepMaps parse files groups ps = .ok ms) :
+    ms.length = ps.length ∧
+      ∀ (i : Nat) (p : Params), ps[i]? = some p → ∃ m, ms[i]? = some m ∧ mapOf parse files groups p = .ok m := by
+  have hp := (pepMaps_ok_iff parse files groups ps ms).mp h
+  exact ⟨(pointwise_length hp).symm, pointwise_get hp⟩
+
+/-- without a protein-groups file (and with one that names no entrapment protein) the element for a parameter
+    set IS the single-parameter-set map `get_peptide_to_protein_map_from_params(fasta, [p])` all the theorems
+    above speak about -/
+theorem map_of_no_entrapment (parse : ParseId) (files : List (List Str)) (p : Params) :
+    mapOf parse files none p = fromParams parse files [p] ∧
+    ∀ g, entrapmentProteins g = [] → mapOf parse files (some g) p = fromParams parse files [p] := by
+  constructor
+  · unfold mapOf
+    cases fromParams parse files [p] <;> rfl
+  · intro g hg
+    unfold mapOf
+    cases fromParams parse files [p] with
+    | error e => rfl
+    | ok res => simp [markResult, hg]
+
+/-- the map of a parameter set does not depend on the other parameter sets of the list, on its position or on
+    the order: equal parameter sets — in one list or in two different lists — get equal maps -/
+theorem maps_independent (parse : ParseId) (files : List (List Str)) (groups : Option (List (List Str)))
+    (ps ps' : List Params) (ms ms' : List (PMap × SeqMap))
+    (h : pepMaps parse files groups ps = .ok ms) (h' : pepMaps parse files groups ps' = .ok ms')
+    (i j : Nat) (p : Params) (hi : ps[i]? = some p) (hj : ps'[j]? = some p) : ms[i]? = ms'[j]? := by
+  obtain ⟨m, hm, hmo⟩ := (maps_pointwise parse files groups ps ms h).2 i p hi
+  obtain ⟨m', hm', hmo'⟩ := (maps_pointwise parse files groups ps' ms' h').2 j p hj
+  rw [hm, hm']
+  rw [hmo] at hmo'
+  cases hmo'
+  rfl
+
+/-- "maps of equal parameter sets are equal" -/
+theorem maps_equal_params (parse : ParseId) (files : List (List Str)) (groups : Option (List (List Str)))
+    (ps : List Params) (ms : List (PMap × SeqMap)) (h : pepMaps parse files groups ps = .ok ms)
+    (i j : Nat) (p : Params) (hi : ps[i]? = some p) (hj : ps[j]? = some p) : ms[i]? = ms[j]? :=
+  maps_independent parse files groups ps ps ms ms h h i j p hi hj
+
+/-- building the list commutes with permutations of the parameter sets: the (parameter set, map) pairs are
+    permuted in the same way -/
+theorem maps_perm (parse : ParseId) (files : List (List Str)) (groups : Option (List (List Str)))
+    (ps ps' : List Params) (hp : ps.Perm ps') (ms : List (PMap × SeqMap))
+    (h : pepMaps parse files groups ps = .ok ms) :
+    ∃ ms', pepMaps parse files groups ps' = .ok ms' ∧ (ps.zip ms).Perm (ps'.zip ms') :=
+  pepMaps_perm parse files groups hp ms h
+
+/-- the list builder fails exactly with the error of the FIRST parameter set whose map cannot be built -/
+theorem maps_first_error (parse : ParseId) (files : List (List Str)) (groups : Option (List (List Str)))
+    (ps : List Params) (e : Err) :
+    pepMaps parse files groups ps = .error e ↔
+      ∃ pre p post, ps = pre ++ p :: post ∧ (∀ q ∈ pre, ∃ m, mapOf parse files groups q = .ok m) ∧
+        mapOf parse files groups p = .error e :=
+  pepMaps_error_iff parse files groups e ps
+
+/-- "the peptide-to-protein map lists for each peptide exactly the … proteins … whose digestion yields that
+    peptide … in database order … every digestion parameter set": every element of the list (no entrapment
+    renaming) is exact for ITS parameter set — enzyme rule, window, mode, budget, Met removal, hash keys
+    (`argsOf r p parse`) and database mode + special residues (`dbRecords parse p files`) are those of `ps[i]` -/
+theorem maps_entry_exact (parse : ParseId) (files : List (List Str)) (ps : List Params) (ms : List (PMap × SeqMap))
+    (h : pepMaps parse files none ps = .ok ms) (i : Nat) (p : Params) (hi : ps[i]? = some p)
+    (r : EnzymeRule) (hr : lookupEnzyme p.enzyme = some r) :
+    ∃ m, ms[i]? = some m ∧ ∀ k, get m.1 k =
+      ((dbRecords parse p files).filter (fun x => decide (k ∈ keysOf (argsOf r p parse) x.2))).map (·.1) := by
+  obtain ⟨m, hm, hmo⟩ := (maps_pointwise parse files none ps ms h).2 i p hi
+  rw [(map_of_no_entrapment parse files p).1] at hmo
+  exact ⟨m, hm, fun k => map_exact_files parse files p r hr m hmo k⟩
+
+/-- "… each once and in database order", for every element of the list -/
+theorem maps_entry_nodup_db_order (parse : ParseId) (files : List (List Str)) (ps : List Params)
+    (ms : List (PMap × SeqMap)) (h : pepMaps parse files none ps = .ok ms) (i : Nat) (p : Params)
+    (hi : ps[i]? = some p) (hd : ((dbRecords parse p files).map (·.1)).Nodup) :
+    ∃ m, ms[i]? = some m ∧ ∀ k,
+      (get m.1 k).Nodup ∧ (get m.1 k).Sublist ((dbRecords parse p files).map (·.1)) := by
+  obtain ⟨m, hm, hmo⟩ := (maps_pointwise parse files none ps ms h).2 i p hi
+  rw [(map_of_no_entrapment parse files p).1] at hmo
+  exact ⟨m, hm, fun k => map_nodup_db_order_files parse files p m hmo hd k⟩
+
+/-- "target proteins and generated decoy proteins": under every database mode and special-residue setting the
+    database is what `yieldRecords` (see `decoy_def`) makes of the TARGET records of the files, record by record;
+    the target records themselves do not depend on either setting -/
+theorem db_records_split (parse : ParseId) (p : Params) (files : List (List Str)) :
+    dbRecords parse p files =
+      (targetRecords parse files).flatMap (fun x => yieldRecords p.db p.special x.1 x.2) :=
+  dbRecords_split parse p files
+
+/-- the special-residue setting only influences the DECOY part of a map: in a target+decoy database the entry of
+    `k` under special residues `s` is, target record by target record, the target identifier iff the digest of the
+    target sequence yields `k` — a condition in which `s` does not occur — followed by the prefixed identifier iff
+    the digest of `decoySeq s sequence` yields `k` -/
+theorem special_only_decoys (parse : ParseId) (files : List (List Str)) (p : Params) (r : EnzymeRule)
+    (hr : lookupEnzyme p.enzyme = some r) (hdb : p.db = .concat) (s : List Char) (res : PMap × SeqMap)
+    (h : fromParams parse files [{ p with special := s }] = .ok res) (k : Str) :
+    get res.1 k = (targetRecords parse files).flatMap (fun x =>
+      (if k ∈ keysOf (argsOf r p parse) x.2 then [x.1] else []) ++
+      (if k ∈ keysOf (argsOf r p parse) (decoySeq s x.2) then ["REV__".toList ++ x.1] else [])) := by
+  rw [map_exact_files parse files { p with special := s } r hr res h k, dbRecords_split]
+  simp only [keysOf_argsOf_special]
+  simp only [hdb]
+  generalize targetRecords parse files = recs
+  induction recs with
+  | nil => rfl
+  | cons x recs ih =>
+    simp only [List.flatMap_cons, List.filter_append, List.map_append, ih]
+    congr 1
+    simp only [yieldRecords, decoyPrefix]
+    by_cases h1 : k ∈ keysOf (argsOf r p parse) x.2 <;>
+      by_cases h2 : k ∈ keysOf (argsOf r p parse) (decoySeq s x.2) <;> simp [List.filter, h1, h2]
+
+/-- with a target-only database (`--fasta_contains_decoys`) the special-residue setting has no influence at all -/
+theorem target_db_ignores_special (parse : ParseId) (files : List (List Str)) (groups : Option (List (List Str)))
+    (p : Params) (hdb : p.db = .target) (s : List Char) :
+    fromParams parse files [{ p with special := s }] = fromParams parse files [p] ∧
+    mapOf parse files groups { p with special := s } = mapOf parse files groups p := by
+  have h := fromParams_target_special parse files p hdb s
+  exact ⟨h, by unfold mapOf; rw [h]⟩
+
+/-- `get_digestion_params_list`, success: when every option list has length one or `n` (`n` itself being the length
+    of one of the seven lists — the flag counts as a list of length one), there are `n` parameter sets and the
+    `i`-th is `DigestionParams(…)` of the `i`-th value of every list, a single value standing for all positions
+    ("--enzyme trypsin lys-c --special-aas KR": both sets use KR) -/
+theorem args_broadcast (a : ArgLists) (n : Nat) (hn : n ∈ argLengths a)
+    (hall : ∀ l ∈ argLengths a, l = 1 ∨ l = n) :
+    ∃ ps, digestionParamsList a = .ok ps ∧ ps.length = n ∧
+      ∀ i, i < n → ps[i]? =
+        (do let e ← pick a.enzyme i; let d ← pick a.digestion i; let mn ← pick a.minL i; let mx ← pick a.maxL i
+            let c ← pick a.mc i; let s ← pick a.special i
+            pure (mkParams e d mn mx c s a.containsDecoys)) := by
+  have hlens : ∀ x ∈ (argLengths a).filter (fun n => n != 1), x = n := by
+    intro x hx
+    obtain ⟨hx1, hx2⟩ := List.mem_filter.mp hx
+    rcases hall x hx1 with h | h
+    · simp [h] at hx2
+    · exact h
+  have hsame := allSame_of_all_eq n _ hlens
+  have hn' : maxParams ((argLengths a).filter (fun n => n != 1)) = n := by
+    cases hl : (argLengths a).filter (fun n => n != 1) with
+    | nil =>
+      simp only [maxParams]
+      by_cases h1 : n = 1
+      · exact h1.symm
+      · have : n ∈ (argLengths a).filter (fun n => n != 1) := List.mem_filter.mpr ⟨hn, by simp [h1]⟩
+        rw [hl] at this
+        cases this
+    | cons x xs =>
+      simp only [maxParams]
+      rw [← hl]
+      exact foldl_max_of_all_eq n _ 0 (Nat.zero_le _) (by rw [hl]; simp) hlens
+  have h1 := hall a.enzyme.length (by simp [argLengths])
+  have h2 := hall a.digestion.length (by simp [argLengths])
+  have h3 := hall a.minL.length (by simp [argLengths])
+  have h4 := hall a.maxL.length (by simp [argLengths])
+  have h5 := hall a.mc.length (by simp [argLengths])
+  have h6 := hall a.special.length (by simp [argLengths])
+  have hlen : ∀ {α : Type} (l : List α), (l.length = 1 ∨ l.length = n) → (bcast n l).length = n := by
+    intro α l h
+    by_cases hl : l.length = 1
+    · exact bcast_length_one n l hl
+    · rw [bcast_of_length_ne_one n l hl]
+      exact h.resolve_left hl
+  have hdef : digestionParamsList a = .ok (zipParams (bcast n a.enzyme) (bcast n a.digestion) (bcast n a.minL)
+      (bcast n a.maxL) (bcast n a.mc) (bcast n a.special) (bcast n [a.containsDecoys])) := by
+    simp only [digestionParamsList, hsame, Bool.not_true, Bool.false_eq_true, if_false]
+    rw [hn']
+  refine ⟨_, hdef, ?_, ?_⟩
+  · exact zipParams_length _ _ _ _ _ _ _ n (hlen _ h1) (hlen _ h2) (hlen _ h3) (hlen _ h4) (hlen _ h5) (hlen _ h6)
+      (by simp [bcast])
+  · intro i hi
+    rw [zipParams_get, bcast_get n _ i hi h1, bcast_get n _ i hi h2, bcast_get n _ i hi h3,
+      bcast_get n _ i hi h4, bcast_get n _ i hi h5, bcast_get n _ i hi h6]
+    have : (bcast n [a.containsDecoys])[i]? = some a.containsDecoys := by simp [bcast, hi]
+    rw [this]
+    cases pick a.enzyme i <;> cases pick a.digestion i <;> cases pick a.minL i <;> cases pick a.maxL i <;>
+      cases pick a.mc i <;> cases pick a.special i <;> rfl
+
+/-- `get_digestion_params_list`, failure: the only error is "Received digestion parameters of unequal length", raised
+    exactly when two of the lists have different lengths, both different from one -/
+theorem args_unequal_lengths (a : ArgLists) (e : MapsErr) :
+    digestionParamsList a = .error e ↔
+      e = .unequalLengths ∧ ∃ l1 ∈ argLengths a, ∃ l2 ∈ argLengths a, l1 ≠ 1 ∧ l2 ≠ 1 ∧ l1 ≠ l2 := by
+  unfold digestionParamsList
+  simp only
+  cases hs : allSame ((argLengths a).filter (fun n => n != 1)) with
+  | true =>
+    simp only [Bool.not_true, Bool.false_eq_true, if_false]
+    constructor
+    · intro h; cases h
+    · rintro ⟨_, l1, h1, l2, h2, n1, n2, hne⟩
+      have : allSame ((argLengths a).filter (fun n => n != 1)) = false :=
+        (allSame_false_iff _).mpr ⟨l1, List.mem_filter.mpr ⟨h1, by simp [n1]⟩, l2,
+          List.mem_filter.mpr ⟨h2, by simp [n2]⟩, hne⟩
+      rw [hs] at this; cases this
+  | false =>
+    simp only [Bool.not_false, if_true, Except.error.injEq]
+    obtain ⟨x, hx, y, hy, hxy⟩ := (allSame_false_iff _).mp hs
+    obtain ⟨hx1, hx2⟩ := List.mem_filter.mp hx
+    obtain ⟨hy1, hy2⟩ := List.mem_filter.mp hy
+    constructor
+    · intro h
+      exact ⟨h.symm, x, hx1, y, hy1, by simpa using hx2, by simpa using hy2, hxy⟩
+    · rintro ⟨h, _⟩
+      exact h.symm
+
+/-- `get_peptide_to_protein_maps`: with FASTA files the list is the per-parameter-set list whatever map files are
+    named; without FASTA files one map per `--peptide_protein_map` file, each what `readMap` reads (`map_file_roundtrip`:
+    the written map), whatever the digestion parameters, the identifier rule and the protein-groups file; with
+    neither the tool refuses -/
+theorem maps_top_branches (parse : ParseId) (fasta : List (List Str)) (mapFiles : List Str)
+    (groups : Option (List (List Str))) (ps : List Params) :
+    (fasta ≠ [] → pepMapsTop parse fasta mapFiles groups ps = liftErr (pepMaps parse fasta groups ps)) ∧
+    (fasta = [] → mapFiles ≠ [] → pepMapsTop parse fasta mapFiles groups ps = liftErr (readMaps mapFiles) ∧
+      ∀ ms, readMaps mapFiles = .ok ms →
+        ms.length = mapFiles.length ∧
+        ∀ (i : Nat) (t : Str), mapFiles[i]? = some t → ∃ pm, readMap t = .ok pm ∧ ms[i]? = some (pm, [])) ∧
+    (fasta = [] → mapFiles = [] → pepMapsTop parse fasta mapFiles groups ps = .error .noInput) := by
+  refine ⟨?_, ?_, ?_⟩
+  · intro h
+    cases fasta with
+    | nil => exact absurd rfl h
+    | cons _ _ => simp [pepMapsTop]
+  · intro h1 h2
+    subst h1
+    cases mapFiles with
+    | nil => exact absurd rfl h2
+    | cons t ts =>
+      refine ⟨by simp [pepMapsTop], ?_⟩
+      intro ms hms
+      have hp := (readMaps_ok_iff _ _).mp hms
+      refine ⟨(pointwise_length hp).symm, ?_⟩
+      intro i t' ht
+      obtain ⟨m, hm, pm, hpm, rfl⟩ := pointwise_get hp i t' ht
+      exact ⟨pm, hpm, hm⟩
+  · intro h1 h2
+    subst h1 h2
+    simp [pepMapsTop]
+
+/-- "identifiers parsed by the chosen rule": `--gene_level` (unless pseudo genes are in use) chooses the gene rule,
+    otherwise `--fasta_use_uniprot_id` the accession rule, otherwise the text before the first space -/
+theorem select_parse_spec (geneLevel usePseudo useUniprot : Bool) :
+    (selectParse geneLevel usePseudo useUniprot = .gene ↔ (geneLevel = true ∧ usePseudo = false)) ∧
+    (selectParse geneLevel usePseudo useUniprot = .uniprot ↔
+      (¬ (geneLevel = true ∧ usePseudo = false) ∧ useUniprot = true)) ∧
+    (selectParse geneLevel usePseudo useUniprot = .firstSpace ↔
+      (¬ (geneLevel = true ∧ usePseudo = false) ∧ useUniprot = false)) := by
+  cases geneLevel <;> cases usePseudo <;> cases useUniprot <;> simp [selectParse]
+
+/-- `get_peptide_to_protein_maps_from_args` is the composition: parameter sets from the option lists, identifier
+    rule from the flags, then the list builder (so for FASTA input and lists as in `args_broadcast` the `i`-th map
+    is the single-parameter-set map of `DigestionParams` of the `i`-th values, by `maps_pointwise`) -/
+theorem maps_from_args_spec (a : ArgLists) (geneLevel usePseudo useUniprot : Bool) (fasta : List (List Str))
+    (mapFiles : List Str) (groups : Option (List (List Str))) (ps : List Params)
+    (hps : digestionParamsList a = .ok ps) :
+    pepMapsFromArgs a geneLevel usePseudo useUniprot fasta mapFiles groups =
+      pepMapsTop (selectParse geneLevel usePseudo useUniprot) fasta mapFiles groups ps := by
+  simp [pepMapsFromArgs, hps]
+
+/-! Non-vacuity for the list of maps: one FASTA record `>P1 / ACKDEK`, target+decoy database, window 2–6, no missed
+cleavages.  `--enzyme trypsin --special-aas KR none KR` gives three parameter sets; the decoy is `KEKDCA` with
+special residues KR (reversed `KEDKCA`, every K swapped with its predecessor) and `KEDKCA` without, so the first and
+the third map list `REV__P1` for `EK`, the second for `EDK`; the target entries (`ACK`, `DEK`) are the same in all
+three.  Two lists of different lengths (2 and 3) are refused. -/
+
+private def exArgs3 : ArgLists :=
+  { enzyme := ["trypsin"], digestion := ["full"], minL := [2], maxL := [6], mc := [0],
+    special := ["KR", "none", "KR"], containsDecoys := false }
+
+private def exFasta1 : List (List Str) := [[">P1".toList, "ACKDEK".toList]]
+
+example : 3 ∈ argLengths exArgs3 ∧ ∀ l ∈ argLengths exArgs3, l = 1 ∨ l = 3 := by decide
+
+example : (digestionParamsList exArgs3).toOption =
+    some [mkParams "trypsin" "full" 2 6 0 "KR" false, mkParams "trypsin" "full" 2 6 0 "none" false,
+          mkParams "trypsin" "full" 2 6 0 "KR" false] := by decide
+
+example : ((pepMapsFromArgs exArgs3 false false false exFasta1 [] none).toOption.map
+      (fun ms => ms.map (fun m => (get m.1 "EK".toList, get m.1 "EDK".toList, get m.1 "ACK".toList)))) =
+    some [(["REV__P1".toList], [], ["P1".toList]), ([], ["REV__P1".toList], ["P1".toList]),
+          (["REV__P1".toList], [], ["P1".toList])] := by decide
+
+example : (match digestionParamsList { exArgs3 with enzyme := ["trypsin", "lys-c"] } with
+    | .error e => some e
+    | .ok _ => none) = some .unequalLengths := by decide
+
+example : [mkParams "trypsin" "full" 2 6 0 "KR" false, mkParams "lys-c" "full" 2 6 0 "KR" false].Perm
+    [mkParams "lys-c" "full" 2 6 0 "KR" false, mkParams "trypsin" "full" 2 6 0 "KR" false] := List.Perm.swap _ _ _
+
+example : (pepMapsTop .firstSpace [] ["EK\tREV__P1\r\nACK\tP1;P2\r\n".toList] none []).toOption.map
+      (fun ms => ms.map (·.1)) =
+    some [[("EK".toList, ["REV__P1".toList]), ("ACK".toList, ["P1".toList, "P2".toList])]] := by decide
+
+example : (mapOf .firstSpace exFasta1 (some [["P1_entrapment".toList, "P7".toList]])
+      (mkParams "trypsin" "full" 2 6 0 "KR" true)).toOption.map (fun m => get m.1 "ACK".toList) =
+    some ["P1_entrapment".toList] := by decide
 
 end PgFdr.C09
